@@ -7,6 +7,8 @@ import (
 	"encoding/json"
 	"fmt"
 	"os"
+	"runtime"
+	"time"
 
 	mcpgo "github.com/mark3labs/mcp-go/mcp"
 
@@ -63,10 +65,59 @@ func init() {
 }
 
 func mcpCall(hs *pymcp.HandlerSet, tool string, args map[string]any) map[string]any {
+	return mcpCallCtx(context.Background(), hs, tool, args)
+}
+
+func init() {
+	// mcp_cancel: the request context of an MCP call ends while the analyses are running (a client that gives up, a deadline). When the handler
+	// returns, no analysis goroutine may still be running (the response is built from their results); the race-detector build of this harness
+	// additionally sees an unsynchronised read of a result that is still being written.
+	handlers["mcp_cancel"] = func(raw json.RawMessage) (any, error) {
+		var in struct {
+			Tool    string
+			Args    map[string]any
+			Cwd     string
+			AfterMs []int
+		}
+		if err := json.Unmarshal(raw, &in); err != nil {
+			return nil, err
+		}
+		if in.Cwd != "" {
+			old, _ := os.Getwd()
+			if err := os.Chdir(in.Cwd); err != nil {
+				return nil, err
+			}
+			defer func() { _ = os.Chdir(old) }()
+		}
+		runs := []map[string]any{}
+		for _, ms := range in.AfterMs {
+			hs := pymcp.NewHandlerSet(pymcp.NewDependencies(nil, ""))
+			runtime.GC()
+			before := runtime.NumGoroutine()
+			ctx, cancel := context.WithTimeout(context.Background(), time.Duration(ms)*time.Millisecond)
+			t0 := time.Now()
+			out := mcpCallCtx(ctx, hs, in.Tool, in.Args)
+			took := time.Since(t0)
+			after := runtime.NumGoroutine()
+			cancel()
+			// let stragglers (if any) finish, so that the race detector observes their writes and the next run starts clean
+			waited := 0
+			for runtime.NumGoroutine() > before && waited < 400 {
+				time.Sleep(50 * time.Millisecond)
+				waited++
+			}
+			_, hasJSON := out["json"]
+			runs = append(runs, map[string]any{"after_ms": ms, "took_ms": took.Milliseconds(), "goroutines_before": before, "goroutines_at_return": after,
+				"still_running_at_return": after - before, "settled_after_ms": waited * 50, "is_error": out["is_error"], "go_error": out["go_error"], "has_json": hasJSON})
+		}
+		return map[string]any{"runs": runs}, nil
+	}
+}
+
+func mcpCallCtx(ctx context.Context, hs *pymcp.HandlerSet, tool string, args map[string]any) map[string]any {
 	var req mcpgo.CallToolRequest
 	req.Params.Name = tool
 	req.Params.Arguments = args
-	ctx := context.Background()
 	var res *mcpgo.CallToolResult
 	var err error
 	switch tool {
